@@ -388,7 +388,7 @@ def fixed_cases():
 
 def run(ctx):
     nsh = 16
-    per = ctx.n(400, 6000)
+    per = ctx.n(800, 9000)
     res = Result()
     for c in fixed_cases():
         res.evaluations += 1
@@ -440,4 +440,10 @@ def search(ctx, res, broken):
 
 
 def replay(ctx, case):
+    if not outlib.valid_config(case):
+        return None
+    if 'stream' in case and not G.valid_stream(case['stream']):
+        return None
+    if case.get('kind') == 'history' and not (isinstance(case.get('cut'), int) and 0 <= case['cut'] <= len(case['stream'])):
+        return None
     return oracle_case(case)
